@@ -1,10 +1,31 @@
-"""Known findings: committed list, matched by signature; never written at run time."""
+"""Known findings: committed list, matched by signature; never written at run time.
+
+known_findings.json holds the findings.  An entry lists its signatures inline ("signature": exact strings or globs) and/or
+refers to the committed table known/<property>.tsv ("signature_file"), whose lines are  <entry id> TAB <exact signature>:
+the per-input lists of the parser properties are too long for the JSON file.  kind=fixed entries suppress nothing."""
 import fnmatch
 import json
 import os
 
 VERIF = os.path.dirname(os.path.dirname(os.path.abspath(__file__)))
 PATH = os.path.join(VERIF, "known_findings.json")
+_TABLES = {}
+
+
+def _table(relpath):
+    if relpath not in _TABLES:
+        t = {}
+        p = os.path.join(VERIF, relpath)
+        if os.path.exists(p):
+            with open(p, encoding="utf-8") as f:
+                for line in f:
+                    line = line.rstrip("\n")
+                    if not line or line.startswith("#"):
+                        continue
+                    eid, _, sig = line.partition("\t")
+                    t[sig] = eid
+        _TABLES[relpath] = t
+    return _TABLES[relpath]
 
 
 def load(pid=None):
@@ -16,13 +37,16 @@ def load(pid=None):
 
 
 def match(entries, signature):
-    """Return the 'known' entry whose signature (exact or glob) matches, else None.
-    'fixed' entries never match: they suppress nothing."""
+    """Return the 'known' entry whose signature (exact, glob, or line of its signature file) matches, else None."""
     for e in entries:
         if e.get("kind", "known") != "known":
             continue
-        sigs = e["signature"] if isinstance(e["signature"], list) else [e["signature"]]
+        sigs = e.get("signature", [])
+        sigs = sigs if isinstance(sigs, list) else [sigs]
         for s in sigs:
             if s == signature or (("*" in s or "?" in s) and fnmatch.fnmatchcase(signature, s)):
                 return e
+        sf = e.get("signature_file")
+        if sf and _table(sf).get(signature) == e["id"]:
+            return e
     return None
